@@ -49,6 +49,10 @@ CLAIMS = {
           "For every simulated run (extra string/NaN/int metrics, resumed trials with changed configs, every results_update_interval, injected exceptions) the results table, its CSV read-back, Tuner.best_config, load_experiment().best_config and the running statistics are recomputed from what the back-end handed to the loop.",
           "When run() ended by exception the batch that was being processed counts as in flight (accepted as counted or not).",
           "deterministic simulation: log/read-back/recomputation oracle over recorded history"),
+  "C18": ("exploration", "5/C18",
+          "Stream behaviour under simulation: scripted jobs emit, through the real Reporter, seeded sequences of reports (nested values, strings with braces/brackets/quotes/unicode/the metric tag, NaN/inf, numpy scalars) interleaved with noise lines (with and without trailing newline) into the trial's output stream (a real std.out file in W-LOCAL) while the loop polls and re-parses the growing stream across pauses, kills and resumes; delivered results, report counter, time stamps, prefix parsing at every poll and reporter-side rejection (reserved key, unserialisable, oversize, None) are checked.",
+          "Only the stream half is decided by simulation; the bare parse(serialise(x)) = x over all payloads is input generation and is only sampled by the workload generator; polls inside a single > 8 KiB write (torn line) are not simulated.",
+          "deterministic simulation of the report stream; delivery/parse/rejection oracle"),
   "C19": ("exploration", "5/C19",
           "MOASHA decisions in simulated runs (2-4 objectives, per-metric modes, ties, three priorities, brackets 1-3, any report order) are compared with brute-force Pareto-layer rank bounds; on every rung content reached pareto_efficient is compared with the brute-force mask and nondominated_sort with the layer order.",
           "The pure Pareto functions are only sampled on rung contents reached; bracket of each trial is a state tap (MOASHA draws it from the global generator).",
